@@ -100,6 +100,7 @@ int worker_main(int argc, char** argv, const RunFn& run_fn);
 
 // the harness may attach a rendered sample of the run to the result line
 void set_sample(const std::string& json_value);
+void set_field(const std::string& name, const std::string& json_value);   // extra key in the result line (e.g. exhaustive_subspace)
 void set_nontrivial(bool v);   // override the default rule (>= 1 step with >= 2 candidates or >= 1 fault)
 void add_to_signature(uint64_t v); // contribute to the distinctness signature (schedule signature)
 
